@@ -3,6 +3,7 @@ package c05
 
 import (
 	"bytes"
+	"time"
 	"encoding/binary"
 	"fmt"
 
@@ -45,7 +46,9 @@ func init() {
 			k := k
 			out = append(out, &vexplore.Scenario{Name: fmt.Sprintf("%s-hist-D%d", k.n, dr), Mode: "hist", Reset: kit.ResetGlobals,
 				Body:         func() { rawHist(k.c, dr) },
-				NeedCounters: []string{"raw-recv-header", "raw-reply-routed", "raw-unknown-pipe-dropped"}})
+				NeedCounters: []string{"raw-recv-header", "raw-reply-routed", "raw-unknown-pipe-dropped", "raw-newcomer"}})
+			out = append(out, &vexplore.Scenario{Name: k.n + "-reply-retried-after-timeout", Mode: "enum", Reset: kit.ResetGlobals,
+				Body: func() { rawRetry(k.n, k.c) }, NeedCounters: []string{"raw-timeout-then-retry-routed"}})
 		}
 		return out
 	})
@@ -519,6 +522,8 @@ type rawWorld struct {
 	seen  []int
 	queue [][]*request
 	got   []*mangos.Message
+	from  []int // connection each message in got came from
+	connect func()
 	recv  *kit.Call
 	seq   uint32
 	nrep  int
@@ -551,8 +556,118 @@ func rawHist(c ctor, depth int) {
 		}
 	}
 	w.ids = attached
+	w.connect = func() {
+		w.pipes = append(w.pipes, ep.Connect())
+		w.seen = append(w.seen, 0)
+		w.queue = append(w.queue, nil)
+		kit.Quiesce()
+		if len(attached) != len(w.pipes) {
+			kit.Failf("raw-connect", "a new connection did not attach")
+		}
+		w.ids = attached
+		kit.Count("raw-newcomer")
+	}
 	kit.Hist(depth, w.events, w.settle)
 	kit.Must("Socket.Close", func() { _ = w.sock.Close() })
+}
+
+// rawRetry: a raw REP / RESPONDENT application answers a request; the asking peer is slow, the
+// queue fills and SendMsg fails with the send timeout, leaving the message with the caller.  The
+// caller sends that same message again when the peer takes again: it reaches the asker with the
+// request's routing header, and nobody else (in one variant the next word of the routing header
+// equals the pipe id of another connection of this socket).
+func rawRetry(kind string, c ctor) {
+	deep := kit.ChooseFree(3) // 0: id word only, 1: an extra word, 2: an extra word that equals the other connection's pipe id
+	s, err := c()
+	if err != nil {
+		kit.Failf("setup", "NewSocket: %v", err)
+	}
+	var ids []uint32
+	s.SetPipeEventHook(func(ev mangos.PipeEvent, p mangos.Pipe) {
+		if ev == mangos.PipeEventAttached {
+			ids = append(ids, p.ID())
+		}
+	})
+	_ = s.SetOption(mangos.OptionWriteQLen, 1)
+	if err := s.SetOption(mangos.OptionSendDeadline, 50*time.Millisecond); err != nil {
+		kit.Failf("setup", "SendDeadline: %s", kit.ErrName(err))
+	}
+	ep := vt.Get("rawretry")
+	if err := s.Listen("vt://rawretry"); err != nil {
+		kit.Failf("setup", "Listen: %v", err)
+	}
+	asker, other := ep.Connect(), ep.Connect()
+	kit.Quiesce()
+	if len(ids) != 2 {
+		kit.Failf("setup", "%d pipes attached", len(ids))
+	}
+	var bt []byte
+	switch deep {
+	case 1:
+		bt = append(bt, 0x00, 0x00, 0x00, 0x07)
+	case 2:
+		var w4 [4]byte
+		binary.BigEndian.PutUint32(w4[:], ids[1])
+		bt = append(bt, w4[:]...)
+	}
+	bt = append(bt, 0x80, 0x00, 0x00, 0x2a)
+	asker.Deliver(append(append([]byte{}, bt...), "request"...))
+	rc := kit.Start("RecvMsg", func() (interface{}, error) { return s.RecvMsg() })
+	kit.Quiesce()
+	if !rc.Done() || rc.Err != nil {
+		kit.Failf("setup", "RecvMsg done=%v %s", rc.Done(), kit.ErrName(rc.Err))
+	}
+	req := rc.Val.(*mangos.Message)
+	hdr := append([]byte{}, req.Header...)
+	asker.Hold(true)
+	var timedOut *mangos.Message
+	n := 0
+	for i := 0; i < 6 && timedOut == nil; i++ {
+		m := mangos.NewMessage(16)
+		m.Header = append(m.Header, hdr...)
+		m.Body = append(m.Body, fmt.Sprintf("reply%d", i)...)
+		sc := kit.Start("SendMsg", func() (interface{}, error) { return nil, s.SendMsg(m) })
+		kit.Quiesce()
+		if !sc.Done() {
+			kit.Sleep(50 * time.Millisecond)
+			kit.Quiesce()
+		}
+		if !sc.Done() {
+			kit.Failf("raw-send-deadline", "%s: SendMsg still blocked after the send deadline", kind)
+		}
+		switch sc.Err {
+		case nil:
+			n++
+		case mangos.ErrSendTimeout:
+			timedOut = m
+		default:
+			kit.Failf("raw-send-error", "%s: SendMsg returned %s", kind, kit.ErrName(sc.Err))
+		}
+	}
+	if timedOut == nil {
+		kit.Failf("setup", "%s: no SendMsg timed out although the peer takes nothing", kind)
+	}
+	body := string(timedOut.Body)
+	asker.Hold(false)
+	asker.Take(10)
+	kit.Quiesce()
+	before := asker.NumSent()
+	sc := kit.Start("SendMsg-again", func() (interface{}, error) { return nil, s.SendMsg(timedOut) })
+	kit.Quiesce()
+	if !sc.Done() || sc.Err != nil {
+		kit.Failf("raw-retry-send", "%s: the peer takes again, sending the same message again: done=%v %s", kind, sc.Done(), kit.ErrName(sc.Err))
+	}
+	if other.NumSent() != 0 {
+		kit.Failf("raw-retry-misrouted:"+kind, "%s: the retried reply was written to a connection that never asked: %x", kind, other.SentLog()[0].Data)
+	}
+	l := asker.SentLog()
+	want := append(append([]byte{}, hdr[4:]...), body...)
+	if len(l) != before+1 || !bytes.Equal(l[len(l)-1].Data, want) {
+		kit.Failf("raw-retry-lost:"+kind, "%s: the retried reply did not reach the asker with its routing header (asker has %d messages, %d before the retry)", kind, len(l), before)
+	}
+	kit.Count("raw-timeout-then-retry-routed")
+	kit.Observe("%s deep=%d sent-before-timeout=%d", kind, deep, n)
+	kit.Must("Socket.Close", func() { _ = s.Close() })
 }
 
 func (w *rawWorld) newWire() []wireMsg {
@@ -591,12 +706,25 @@ func (w *rawWorld) events() []kit.Event {
 	}
 	if w.pipes[0].Alive() {
 		evs = append(evs, kit.Event{Name: "malformed-short:p0", Run: func() { w.pipes[0].Deliver([]byte{0x80, 0x01, 0x02}) }})
-		evs = append(evs, kit.Event{Name: "drop:p0", Run: func() {
-			w.pipes[0].DropNow()
-			for _, r := range w.queue[0] {
-				r.optional = true
-			}
-		}})
+	}
+	for _, pi := range []int{0, len(w.pipes) - 1} { // the oldest and the newest connection may go
+		pi := pi
+		if w.pipes[pi].Alive() {
+			evs = append(evs, kit.Event{Name: fmt.Sprintf("drop:p%d", pi), Run: func() {
+				w.pipes[pi].DropNow()
+				for _, r := range w.queue[pi] {
+					r.optional = true
+				}
+			}})
+		}
+	}
+	gone := false
+	for _, p := range w.pipes {
+		gone = gone || !p.Alive()
+	}
+	if gone && len(w.pipes) < 3 {
+		// a newcomer after a connection has gone: it must not inherit what was meant for that one
+		evs = append(evs, kit.Event{Name: "connect", Run: w.connect})
 	}
 	if w.recv == nil {
 		evs = append(evs, kit.Event{Name: "recv", Run: func() {
@@ -615,17 +743,13 @@ func (w *rawWorld) events() []kit.Event {
 func (w *rawWorld) doReply(variant string) {
 	g := w.got[0]
 	w.got = w.got[1:]
+	pipe := w.from[0]
+	w.from = w.from[1:]
 	w.nrep++
 	body := fmt.Sprintf("rawreply%d", w.nrep)
 	m := mangos.NewMessage(len(body))
 	m.Body = append(m.Body, body...)
 	hdr := append([]byte{}, g.Header...)
-	pipe := -1
-	for i, id := range w.ids {
-		if binary.BigEndian.Uint32(hdr) == id {
-			pipe = i
-		}
-	}
 	switch variant {
 	case "unknown-pipe":
 		binary.BigEndian.PutUint32(hdr, (w.ids[0]^w.ids[1])|0x40000000)
@@ -643,7 +767,7 @@ func (w *rawWorld) doReply(variant string) {
 	case "ok":
 		if !w.pipes[pipe].Alive() {
 			if len(wire) != 0 {
-				kit.Failf("raw-reply-misrouted-gone", "reply for a gone connection written to p%d", wire[0].pipe)
+				kit.Failf("raw-reply-misrouted-gone", "the reply to a request from p%d, which has gone, was written to p%d", pipe, wire[0].pipe)
 			}
 			return
 		}
@@ -712,6 +836,7 @@ func (w *rawWorld) settle() {
 			}
 			kit.Count("raw-recv-header")
 			w.got = append(w.got, m)
+			w.from = append(w.from, pi)
 			return
 		}
 	}
